@@ -57,7 +57,7 @@ class Recorder:
 
     def reset(self):
         with self.lock:
-            self.log, self.seen, self.conns = [], set(), []
+            self.log, self.seen, self.conns, self.serial = [], set(), [], 0
 
     def live_conns(self):
         """server-side connection objects whose socket is still open"""
@@ -566,6 +566,7 @@ class Player:
         self.cfg, self.info, self.tree = cfg, info, tree
         self.rec = Recorder(info, tree)
         self.srv = None
+        self.opened = 0
 
     # -- server life cycle
     def start(self):
@@ -617,7 +618,10 @@ class Player:
         while True:
             livec = self.rec.live_conns()
             a = self.acct()
-            if a == livec and (expect is None or a == expect):
+            # every connection this harness opened has to have been accepted by the daemon first (a connection still in the
+            # kernel's accept queue is invisible to the accounting); give that one second, a reset one may never show up
+            pending = self.rec.serial < self.opened and time.time() - t0 < 1.0
+            if not pending and a == livec and (expect is None or a == expect):
                 n += 1
                 if n >= 2:
                     return True
@@ -643,6 +647,7 @@ class Player:
             self.start()
             srv, rec = self.srv, self.rec
             base = self.acct()
+        self.opened = 1
         w = rd.RawClient(srv.port, timeout=3.0)
         w.send(rd.connect_msg("t", "serpent"))
         m = patient(w)
@@ -691,6 +696,7 @@ class Player:
                 self.settle(timeout=5.0)
                 try:
                     clients[st[1]] = rd.RawClient(srv.port, timeout=2.0)
+                    self.opened += 1
                 except OSError:
                     dead.add(st[1])
             elif st[1] in dead or st[1] not in clients:
@@ -727,6 +733,12 @@ class Player:
         settled = self.settle(expect=1, timeout=12.0)
         alive = srv.loop_alive()
         a = self.acct()
+        for _ in range(3):
+            if a == 1 or not alive:
+                break
+            time.sleep(0.2)               # a straggler still being served: look again
+            self.settle(expect=1, timeout=6.0)
+            a = self.acct()
         if not alive:
             # everything else (unanswered new clients, accounting) follows from this
             viol.append(("request-loop-died:" + self.cfg["server"], "the daemon's request loop ended with %r" % (srv.loop_exception,)))
@@ -738,25 +750,34 @@ class Player:
             viol.append(("accounting-not-restored:" + self.cfg["server"],
                          "after the attacking connections ended %s is %d, with only the witness connected (pre-attack value 1)" % (
                              "Pool.busy" if self.cfg["server"] == "thread" else "the number of selector registrations", a)))
-        # a fresh client
-        try:
-            f = rd.RawClient(srv.port, timeout=3.0)
-            f.send(rd.connect_msg("t", "serpent"))
-            m = patient(f, more=12.0)
-            refused_ok = self.cfg["server"] == "thread" and self.cfg.get("pool", 4) <= 1
-            if refused_ok:
-                if not (isinstance(m, dict) and m.get("type") == protocol.MSG_CONNECTFAIL):
-                    viol.append(("fresh-connection-unanswered:" + self.cfg["server"], "a new connection (pool full) got %r instead of a refusal" % (m,)))
-            elif not (isinstance(m, dict) and m.get("type") == protocol.MSG_CONNECTOK):
-                viol.append(("fresh-handshake-failed:" + self.cfg["server"], "a new client's handshake got %r" % (m if not isinstance(m, dict) else m.get("value"),)))
-            else:
-                f.send(rd.ping_msg(seq=4))
+        # a fresh client (a refusal for lack of workers while a straggler is still served is legitimate: look again)
+        refused_ok = self.cfg["server"] == "thread" and self.cfg.get("pool", 4) <= 1
+        for attempt in range(4):
+            fv = []
+            try:
+                self.opened += 1
+                f = rd.RawClient(srv.port, timeout=3.0)
+                f.send(rd.connect_msg("t", "serpent"))
                 m = patient(f, more=12.0)
-                if not (isinstance(m, dict) and m.get("type") == protocol.MSG_PING and m.get("seq") == 4):
-                    viol.append(("fresh-ping-failed:" + self.cfg["server"], "a new client's ping got %r" % (m,)))
-            f.close()
-        except OSError as x:
-            viol.append(("fresh-connection-failed:" + self.cfg["server"], "a new client could not connect: %r" % (x,)))
+                if refused_ok:
+                    if not (isinstance(m, dict) and m.get("type") == protocol.MSG_CONNECTFAIL):
+                        fv.append(("fresh-connection-unanswered:" + self.cfg["server"], "a new connection (pool full) got %r instead of a refusal" % (m,)))
+                elif not (isinstance(m, dict) and m.get("type") == protocol.MSG_CONNECTOK):
+                    fv.append(("fresh-handshake-failed:" + self.cfg["server"], "a new client's handshake got %r" % (m if not isinstance(m, dict) else m.get("value"),)))
+                else:
+                    f.send(rd.ping_msg(seq=4))
+                    m2 = patient(f, more=12.0)
+                    if not (isinstance(m2, dict) and m2.get("type") == protocol.MSG_PING and m2.get("seq") == 4):
+                        fv.append(("fresh-ping-failed:" + self.cfg["server"], "a new client's ping got %r" % (m2,)))
+                f.close()
+            except OSError as x:
+                fv.append(("fresh-connection-failed:" + self.cfg["server"], "a new client could not connect: %r" % (x,)))
+            self.settle(expect=1, timeout=6.0)
+            busy_refusal = fv and isinstance(m, dict) and m.get("type") == protocol.MSG_CONNECTFAIL and "no free workers" in str(m.get("value"))
+            if not busy_refusal or not srv.loop_alive():
+                break
+            time.sleep(0.3)
+        viol += fv
         wcall(4242)
         self.settle(expect=1, timeout=12.0)
         case = None
